@@ -99,6 +99,20 @@ def run(tier, seed):
             alt = ZFilter(dict((k - max(nd_), v) for k, v in dd_.items()), dict((k - max(nd_), v) for k, v in nd_.items()))
             return (h == alt) and not (h != alt) and hash(h) == hash(alt), "1/(%s) does not compare / hash equal to its causal form" % label
         R.guard("denominator-with-positive-powers-is-normalised", {"g": label}, posden)
+    # scale: products / powers whose order exceeds 9 (one state variable per delay in the generated code), exact rational samples
+    xr = [F(i * i - 5 * i + 3, 1) for i in range(30)]
+    runr = lambda flt, sig: list(flt(list(sig), zero=0))
+    f6 = ZFilter([1, 2, 0, 1], [1, -1, 0, 2, 0, 0, 1])
+    g6 = ZFilter([2, -1], [1, 0, 1, 0, -1, 1, 2])
+    f2 = ZFilter([1, 1], [1, -1, 2])
+    for label, prod, seq in (("f*g, orders 6 and 6", lambda: f6 * g6, lambda s: runr(f6, runr(g6, s))),
+                             ("f**6, order 2", lambda: f2 ** 6, lambda s: runr(f2, runr(f2, runr(f2, runr(f2, runr(f2, runr(f2, s))))))),
+                             ("cascade of five", lambda: CascadeFilter(f2, f2, f6, f2, f2), lambda s: runr(f2, runr(f2, runr(f6, runr(f2, runr(f2, s))))))):
+        def big():
+            got, exp_ = runr(prod(), xr), seq(xr)
+            return len(got) == len(exp_) and all(F(u) == F(v) for u, v in zip(got, exp_)), "%s: output differs from applying the factors one after the other (first difference at %s)" % (
+                label, next((i for i, (u, v) in enumerate(zip(got, exp_)) if F(u) != F(v)), None))
+        R.guard("(f*g)(x)==f(g(x))==g(f(x))", {"scale": label}, big)
     # ---- (b) signals: integer coefficient filters, symbolic samples
     xs = [Sym.var("x%d" % i) for i in range(6)]
     filts = [ZFilter([1]), ZFilter([2, -1]), ZFilter([1], [1, -1]), ZFilter([1, 1], [1, 2]), ZFilter([0, 1]), ZFilter([3], [1, 0, 1]), ZFilter([1, -2, 1], [1, 1])]
